@@ -56,6 +56,7 @@ def _check_main(run, P):
              "map_expressions or rebuilt from mapper(<same path>)", minimum=8)
 
     reads_writes(run, P, classes)
+    run.do(_mapped_fields_read, run, P, classes)
     run.do(_callee_lookup, run, P)
     run.do(fixed_names, run, P, classes)
 
@@ -105,6 +106,48 @@ def reads_writes(run, P, classes, r_reads="C08.reads", r_writes="C08.writes"):
                             f"{K.name}.get_written_variables() does not name "
                             f"({sorted(W)})"))
 
+
+
+def _mapped_fields_read(run, P, classes, rule="C08.reads"):
+    """What a statement class itself treats as an expression (the fields its
+    map_expressions hands to the mapper) is collected by its get_read_variables -
+    apart from the names it writes or binds.  Needs no handler in the interpreter, so
+    it also speaks for the statement kinds the interpreter does not execute."""
+    from .c07 import _name_fields
+    n = 0
+    for K in classes:
+        D = sm.read_set(P, K)
+        W = sm.written_set(P, K)
+        M = sm.mapped(P, K)
+        mapped_paths = set()
+        for rec in M.values():
+            mapped_paths |= rec["paths"]
+        bound = set(_name_fields(P, K)) | {"function_id"}
+        # names the read set takes out again (the unknowns of an implicit solve)
+        for f in sm._chain(P, K, "get_read_variables"):
+            for x in ast.walk(f.node):
+                rhs = None
+                if isinstance(x, ast.BinOp) and isinstance(x.op, ast.Sub):
+                    rhs = x.right
+                if isinstance(x, ast.AugAssign) and isinstance(x.op, ast.Sub):
+                    rhs = x.value
+                if rhs is not None:
+                    for y in ast.walk(rhs):
+                        if isinstance(y, ast.Attribute) and dotted(y.value) == "self":
+                            bound.add(y.attr)
+        for p_ in sorted(mapped_paths):
+            root = p_.split(".")[0].split("[")[0].split("{")[0]
+            if root in {b.split(".")[0].split("[")[0].split("{")[0] for b in bound}:
+                continue
+            ok = sm.covered(p_, D | W) or any(sm.covered(q, {p_}) for q in D | W)
+            n += 1
+            run.ob(rule, K, K.node, ok,
+                   construct=f"{K.name}: '{p_}' (an expression according to map_expressions) is "
+                             f"collected by get_read_variables (collected: {sorted(D)})",
+                   why=f"a variable that occurs only in stmt.{p_} is in no declared set: the "
+                       f"builder gives the statement no edge to the statement that assigns it")
+    if n < 8:
+        raise AnalysisError("mapped fields: too few fields examined")
 
 
 def fixed_names(run, P, classes, rule="C08.reads"):
@@ -251,7 +294,34 @@ def _written_whole(run, P, classes, rule="C08.writes"):
                        "write of y, and later readers and writers of y get no edge to it")
 
 
+def _no_negative_shortcut(run, P, rule="C08.mapper"):
+    """A method of the dependency mapper that answers "no variables" without going
+    through the dispatch says positively what it answers for (a constant, None, a
+    string).  The empty set under a *negative* type test answers for every other type
+    as well - tuples, lists and object arrays included, which the dispatch descends into."""
+    from .util import path_conditions
+    C = P.cls("dagrt.expression.ExtendedDependencyMapper")
+    n = 0
+    for name, f in sorted(C.methods.items()):
+        for r in ast.walk(f.node):
+            if not (isinstance(r, ast.Return) and r.value is not None and _is_empty_set(r.value)):
+                continue
+            conds = path_conditions(f.node, r)
+            neg = [t for t, pol in conds if t.startswith("isinstance(") and pol is False]
+            pos = [t for t, pol in conds if pol is True]
+            n += 1
+            run.ob(rule, f, r, not (neg and not pos),
+                   construct=f"{C.name}.{name}: the empty set is returned for named kinds of values "
+                             f"(under: {sorted(t[:40] + ('' if pol else ' is false') for t, pol in conds)})",
+                   why="answered for 'anything that is not an expression node', a tuple of "
+                       "expressions (loop bounds, call arguments held in a container) reads "
+                       "nothing: its variables are in no declared set")
+    if n < 1:
+        raise AnalysisError("ExtendedDependencyMapper: no empty-set answer found")
+
+
 def _mapper_config(run, P):
+    run.do(_no_negative_shortcut, run, P)
     # (1) Statement.get_dependency_mapper and utils.get_variables construct the
     # mapper with include_subscripts=False and include_calls="descend_args"
     sites = []
